@@ -48,6 +48,16 @@ class Stream(Family):
                     yield dict(kind='wellformed', main=codec, boundary=True,
                                calls=[['write_preamble', sl.S(t), None, {'i': 2}, le, None], ['new_change', None],
                                       ['new_file', None], ['write_meta', {'d': {'k': 1}}, None, 'omitted']])
+            if i % 60 == 0:
+                # metadata dictionaries that compare == in Python but are different JSON (1 / True / 1.0, 0 / False), written
+                # one after the other by one writer
+                a, b, c3 = [({'e': 1, 'n': [0]}, {'e': True, 'n': [False]}, {'e': 1, 'n': [0]}),
+                            ({'k': {'x': 0}}, {'k': {'x': False}}, {'k': {'x': 0}}),
+                            ({'e': True}, {'e': 1}, {'e': True})][(i // 60) % 3]
+                yield dict(kind='wellformed', main='utf-8', calls=[['write_meta', {'d': a}, None, 'omitted'], ['new_change', None],
+                                                                   ['write_meta', {'d': b}, None, 'omitted'], ['new_file', None],
+                                                                   ['write_meta', {'d': c3}, None, 'omitted'], ['new_file', None],
+                                                                   ['write_meta', {'d': b}, None, 'omitted']])
             if i % 20 == 0:
                 # first lines whose ENCODED form contains the newline bytes at a non-character boundary, with no declared
                 # line endings: the kind is detected on the text, never on the encoded bytes
@@ -230,6 +240,11 @@ INVALID = [
     (['write_preamble', sl.S('\udc80x\n'), sl.S('latin-1'), 'omitted', None, None], True),
     (['write_preamble', sl.S('a\udcff\n'), sl.S('ascii'), 'omitted', None, None], True),
     (['write_preamble', sl.S('\udfff'), None, 'omitted', None, None], True),
+    # numbers that EQUAL a valid int without being one
+    (['write_preamble', sl.S('x'), None, {'f': 4.0}, None, None], True),
+    (['write_preamble', sl.S('x'), None, {'f': 2.0}, None, None], True),
+    (['write_preamble', sl.S('x'), None, {'f': 16.0}, None, None], True),
+    (['write_preamble', sl.S('x'), None, {'f': 1.5}, None, None], True),
     # invalid values that are FALSY in Python (a `if value and value not in VALID` guard lets them through)
     (['write_preamble', sl.S('x'), None, 'omitted', sl.S(''), None], True),
     (['write_preamble', sl.S('x'), None, 'omitted', {'i': 0}, None], True),
